@@ -3,7 +3,7 @@ import importlib
 from pyvc.spec import SpecRegistry
 from . import common
 
-MODULES = ["leaf_station", "simstate", "statemachine", "servicing", "mechatronics", "updates", "drivers", "iteration", "stepping", "clock", "queueing", "roads", "dispatching", "timed_inputs", "osm", "reporting", "assignment", "readers"]
+MODULES = ["leaf_station", "simstate", "statemachine", "servicing", "mechatronics", "updates", "drivers", "iteration", "stepping", "clock", "queueing", "roads", "dispatching", "timed_inputs", "osm", "reporting", "assignment", "readers", "pooling"]
 
 
 def build(world, ex):
